@@ -261,12 +261,32 @@ func (s *simplifier) unquoteParams(x TestExpr) TestExpr {
 	if dq == nil || len(dq.Parts) != 1 {
 		return x
 	}
-	if _, ok := dq.Parts[0].(*ParamExp); !ok {
+	pe, ok := dq.Parts[0].(*ParamExp)
+	if !ok || quoteSensitive(pe) {
 		return x
 	}
 	s.modified = true
 	w.Parts = dq.Parts
 	return w
+}
+
+// quoteSensitive reports whether a parameter expansion holds words of its own
+// whose meaning depends on whether the expansion is within double quotes,
+// such as the quotes, escapes and tildes in "${a:-'b'}", "${a:-\b}" and "${a:-~}".
+func quoteSensitive(pe *ParamExp) bool {
+	sensitive := false
+	Walk(pe, func(n Node) bool {
+		switch n := n.(type) {
+		case *SglQuoted, *DblQuoted:
+			sensitive = true
+		case *Lit:
+			if n != pe.Param && (strings.HasPrefix(n.Value, "~") || strings.Contains(n.Value, "\\")) {
+				sensitive = true
+			}
+		}
+		return !sensitive
+	})
+	return sensitive
 }
 
 func (s *simplifier) removeParensTest(x TestExpr) TestExpr {
